@@ -182,6 +182,7 @@ type DAct struct {
 	Node   int               `json:"node"` // parent (mknode, -1 = root) or target
 	Kind    string            `json:"kind,omitempty"`
 	Filter  world.FilterSpec  `json:"filter,omitempty"`
+	Filter2 world.FilterSpec  `json:"filter2,omitempty"` // refilter-race: the competing filter
 	SlowMs  int               `json:"slow_ms,omitempty"`
 	Ms      int               `json:"ms,omitempty"`
 	Stalled bool              `json:"stalled,omitempty"` // the subscriber does not read until the end (C10's typed position)
@@ -205,6 +206,7 @@ type dnode struct {
 	tmon   []TCall
 	umon   []TCall
 	closed  bool
+	racy    bool // concurrent Refilter calls were made on it: event streams of the two sides are no longer comparable, caches are
 	stalled bool
 	appliesAtCreate int
 	foreignAtCreate int
@@ -286,7 +288,11 @@ func genC20(g GenCtx) interface{} {
 			sc.Acts = append(sc.Acts, DAct{Op: "foreign", NS: pick(rng, "n1", "n2"), Name: "foreign" + pick(rng, "1", "2"), Labels: randLabels(rng)})
 			inflight++
 		case r < 8 && len(filt) > 0 && !small:
-			sc.Acts = append(sc.Acts, DAct{Op: "refilter", Node: filt[rng.Intn(len(filt))], Filter: randFilter(rng)})
+			if rng.Intn(4) == 0 {
+				sc.Acts = append(sc.Acts, DAct{Op: "refilter-race", Node: filt[rng.Intn(len(filt))], Filter: randFilter(rng), Filter2: randFilter(rng)}, DAct{Op: "check"})
+			} else {
+				sc.Acts = append(sc.Acts, DAct{Op: "refilter", Node: filt[rng.Intn(len(filt))], Filter: randFilter(rng)})
+			}
 		case r < 9 && nodes < 8:
 			mk()
 		case r < 10 && nodes > 0 && rng.Intn(3) == 0:
@@ -355,7 +361,7 @@ func runC20(sci interface{}) {
 	}
 	closedAbove := func(n *dnode) bool {
 		for p := n; p != nil; p = p.parent {
-			if p.closed {
+			if p.closed || p.racy {
 				return true
 			}
 		}
@@ -492,6 +498,38 @@ func runC20(sci interface{}) {
 					detsim.Fail("typed-differs:lifecycle", "node%d: typed Refilter error=%v, untyped error=%v", a.Node, e1, e2)
 				}
 				detsim.Settle()
+			}
+		case "refilter-race":
+			// two goroutines refilter the same node at the same time (either order
+			// may win), then - sequentially - a filter equal to one of them is set:
+			// whatever the race left behind, the node must end up with that filter
+			detsim.Settle()
+			if n := get(a.Node); n != nil && n.t.Refilter != nil && !closedAbove(n) {
+				n.racy = true
+				left := 4
+				done := make(chan struct{})
+				fin := func() {
+					left--
+					if left == 0 {
+						close(done)
+					}
+				}
+				for _, f := range []world.FilterSpec{a.Filter2, a.Filter} {
+					f := f
+					go func() { n.t.Refilter(f.Build()); fin() }()
+					go func() { n.u.Refilter(f.Build()); fin() }()
+				}
+				if !world.WaitClosed(done, time.Minute) {
+					detsim.Fail("hang:Refilter", "node%d: concurrent Refilter calls did not return", a.Node)
+				}
+				detsim.Settle()
+				e1 := n.t.Refilter(a.Filter.Build())
+				e2 := n.u.Refilter(a.Filter.Build())
+				if e1 != nil || e2 != nil {
+					detsim.Fail("api-error", "node%d: Refilter on a running node: typed %v, untyped %v", a.Node, e1, e2)
+				}
+				detsim.Settle()
+				detsim.Count("probe:c20-refilter-race")
 			}
 		case "close":
 			detsim.Settle()
